@@ -225,6 +225,14 @@ func init() {
 			p := addr.MustParseAddress(fmt.Sprintf("tcp://127.0.0.1:%d", freePort()))
 			l.Forward = &p
 		}
+		// every upstream that never completes a handshake may cost the full handshake bound before the next one is tried
+		slow := 0
+		for i := 0; i < n; i++ {
+			if b := a[3+i].W; b == "silent" || b == "stalls" {
+				slow++
+			}
+		}
+		appWait := 2500*time.Millisecond + time.Duration(slow)*socketace.HandshakeTimeout
 		var out []Tok
 		oneConn := func() []Tok {
 			app, local := memPipe(0, 0)
@@ -237,7 +245,7 @@ func init() {
 				case <-time.After(500 * time.Millisecond):
 				}
 			}()
-			app.SetReadDeadline(time.Now().Add(4 * time.Second))
+			app.SetReadDeadline(time.Now().Add(appWait))
 			buf := make([]byte, 1)
 			_, err := io.ReadFull(app, buf)
 			switch {
@@ -280,7 +288,7 @@ func init() {
 				app, local := memPipe(0, 0)
 				done := make(chan struct{})
 				go func() { l.HandleConnection(local); close(done) }()
-				app.SetReadDeadline(time.Now().Add(4 * time.Second))
+				app.SetReadDeadline(time.Now().Add(appWait))
 				buf := make([]byte, 1)
 				_, err := io.ReadFull(app, buf)
 				switch {
